@@ -1,4 +1,5 @@
 import abc
+import math
 
 import torch
 
@@ -70,8 +71,10 @@ class Condition(torch.nn.Module):
         data_functions = {
             fun: UserFunction(data_functions[fun]) for fun in data_functions
         }
-        if isinstance(sampler, StaticSampler):
-            # functions can be evaluated once
+        if isinstance(sampler, StaticSampler) and sampler.resample_interval == math.inf:
+            # The points never change: functions can be evaluated once.
+            # (A static sampler that resamples every k-th call gets new points later on;
+            # values computed now would then belong to points that are no longer used.)
             for fun in data_functions:
                 points = sampler.sample_points()
                 data_fun_points = data_functions[fun](points)
@@ -81,6 +84,13 @@ class Condition(torch.nn.Module):
 
     def _move_static_data(self, device):
         pass
+
+    @staticmethod
+    def _move_data_functions(data_functions, device):
+        # only pre-evaluated data functions (tensors, see _setup_data_functions) are moved
+        for fn in data_functions:
+            if isinstance(data_functions[fn].fun, torch.Tensor):
+                data_functions[fn].fun = data_functions[fn].fun.to(device)
 
 
 class DataCondition(Condition):
@@ -294,8 +304,7 @@ class SingleModuleCondition(Condition):
 
     def _move_static_data(self, device):
         if self.sampler.is_static:
-            for fn in self.data_functions:
-                self.data_functions[fn].fun = self.data_functions[fn].fun.to(device)
+            self._move_data_functions(self.data_functions, device)
 
 
 class MeanCondition(SingleModuleCondition):
@@ -566,8 +575,9 @@ class PeriodicCondition(Condition):
         tmp_left_sampler = self.left_sampler.append(self.non_periodic_sampler)
         tmp_right_sampler = self.right_sampler.append(self.non_periodic_sampler)
         if self.non_periodic_sampler.is_static:
-            tmp_left_sampler = tmp_left_sampler.make_static()
-            tmp_right_sampler = tmp_right_sampler.make_static()
+            interval = self.non_periodic_sampler.resample_interval
+            tmp_left_sampler = tmp_left_sampler.make_static(interval)
+            tmp_right_sampler = tmp_right_sampler.make_static(interval)
         self.left_data_functions = self._setup_data_functions(
             data_functions, tmp_left_sampler
         )
@@ -648,14 +658,8 @@ class PeriodicCondition(Condition):
 
     def _move_static_data(self, device):
         if self.non_periodic_sampler.is_static:
-            for fn in self.left_data_functions:
-                self.left_data_functions[fn].fun = self.left_data_functions[fn].fun.to(
-                    device
-                )
-            for fn in self.right_data_functions:
-                self.right_data_functions[fn].fun = self.right_data_functions[
-                    fn
-                ].fun.to(device)
+            self._move_data_functions(self.left_data_functions, device)
+            self._move_data_functions(self.right_data_functions, device)
 
 
 class IntegroPINNCondition(Condition):
@@ -788,8 +792,7 @@ class IntegroPINNCondition(Condition):
 
     def _move_static_data(self, device):
         if self.sampler.is_static:
-            for fn in self.data_functions:
-                self.data_functions[fn].fun = self.data_functions[fn].fun.to(device)
+            self._move_data_functions(self.data_functions, device)
 
 
 class AdaptiveWeightsCondition(SingleModuleCondition):
@@ -1073,8 +1076,7 @@ class HPM_EquationLoss_at_Sampler(Condition):
 
     def _move_static_data(self, device):
         if self.sampler.is_static:
-            for fn in self.data_functions:
-                self.data_functions[fn].fun = self.data_functions[fn].fun.to(device)
+            self._move_data_functions(self.data_functions, device)
 
 
 class HPCMCondition(Condition):
